@@ -1220,6 +1220,14 @@ func (t *TBtree) flushTree(cleanupPercentageHint float32, forceSync bool, forceC
 		MinOffset:      expectedNewMinOffset,
 	}
 
+	// what the opened snapshots reference, taken before the nodes they share with the tree are re-written in place
+	snapshotsMinOffset := int64(math.MaxInt64)
+	for _, snap := range t.snapshots {
+		if snap.root.minOffset() < snapshotsMinOffset {
+			snapshotsMinOffset = snap.root.minOffset()
+		}
+	}
+
 	_, actualNewMinOffset, wN, wH, err := snapshot.WriteTo(&appendableWriter{t.nLog}, &appendableWriter{t.hLog}, wopts)
 	if err != nil {
 		return 0, 0, t.wrapNwarn("flushing index '%s' {ts=%d, cleanup_percentage=%.2f/%.2f} returned: %v",
@@ -1324,6 +1332,9 @@ func (t *TBtree) flushTree(cleanupPercentageHint float32, forceSync bool, forceC
 
 		// prevent discarding data referenced by opened snapshots
 		discardableNLogOffset := actualNewMinOffset
+		if snapshotsMinOffset < discardableNLogOffset {
+			discardableNLogOffset = snapshotsMinOffset
+		}
 		for _, snap := range t.snapshots {
 			if snap.root.minOffset() < discardableNLogOffset {
 				discardableNLogOffset = snap.root.minOffset()
